@@ -10,7 +10,8 @@ CLAIM = {
          "sibling's messages are delivered unchanged, and the offending connection is either closed or has skipped/answered the bytes - a complete "
          "declared frame is never left stuck in an open connection. The step budget counts dispatches and looks at the receive buffer, so a read loop "
          "that spins without consuming is reported as non-termination. A further switch-side case buffers one maximal message (65535 bytes, six types, "
-         "symbolic xid, declared length 0xffe0..0xffff).",
+         "symbolic xid, declared length 0xffe0..0xffff)."
+         " Also: a later TCP segment on a closed / served switch connection, shaped PACKET_OUT / FLOW_MOD inputs with action-list stubs, and a handshake-shaped input with a symbolic barrier xid on the controller side (no closed socket may stay in the select set).",
  'note': "Trusted: CPython, z3, symx proxies/shims (selftest), scripted sockets and select results (props/env.py). Message handlers on the "
          "controller side are recording stubs (handler semantics belong to C09/C17). Bounded by the stated buffer lengths.",
 }
